@@ -2,7 +2,7 @@
 vt.monitors_transform (explicit loop over multi-indices and snapshots)."""
 import numpy as np
 
-from .. import monitors_transform, monitors_basis
+from .. import gen, monitors_transform, monitors_basis
 from ..drive import call
 from ..shard import Workload
 from ._common import arm_light
@@ -53,14 +53,14 @@ def rand_basis(rng, d, duplicates=False):
 
 def w_basis(ctx, rng, idx):
     d, m = int(rng.integers(1, 4)), int(rng.integers(1, 7))
-    x = rng.uniform(-1.5, 1.5, size=(d, m))
+    x = gen.data_matrix(rng, (d, m))
     bl = rand_basis(rng, d, duplicates=True)
     ctx.describe({'op': 'basis_decomposition/gram', 'd': d, 'm': m, 'modes': [[type(f).__name__ for f in fl] for fl in bl]})
     call('transform.basis_decomposition', tr.basis_decomposition, x, bl, prop=P)
     for k in range(len(bl)):
         call('transform.basis_decomposition', tr.basis_decomposition, x, bl, prop=P, single_core=k)
     m2 = int(rng.integers(1, 7))
-    x2 = rng.uniform(-1.5, 1.5, size=(d, m2))
+    x2 = gen.data_matrix(rng, (d, m2))
     call('transform.gram', tr.gram, x, x2, bl, prop=P)
     call('transform.gram', tr.gram, x, x, bl, prop=P)
     if idx < 3:
@@ -69,7 +69,7 @@ def w_basis(ctx, rng, idx):
 
 def w_major(ctx, rng, idx):
     d, m = int(rng.integers(1, 4)), int(rng.integers(1, 7))
-    x = rng.uniform(-1.5, 1.5, size=(d, m))
+    x = gen.data_matrix(rng, (d, m))
     p = int(rng.integers(1, 4))
     sel = [SCALAR_FUNS[int(rng.integers(0, len(SCALAR_FUNS)))] for _ in range(p)]
     phi = [f for (_, f) in sel]
@@ -85,7 +85,7 @@ def w_major(ctx, rng, idx):
 
 def w_hocur(ctx, rng, idx):
     d, m = int(rng.integers(1, 4)), int(rng.integers(1, 7))
-    x = rng.uniform(-1.5, 1.5, size=(d, m))
+    x = gen.data_matrix(rng, (d, m))
     bl = rand_basis(rng, d, duplicates=(rng.random() < 0.3))
     if idx % 8 == 3:  # data close to a common zero of odd basis functions: every entry of the transformed tensor is tiny in
         x = x * float(10 ** rng.uniform(-7, -3))  # absolute terms (nothing in the statement depends on the scale of the data)
@@ -93,6 +93,10 @@ def w_hocur(ctx, rng, idx):
         bl = [[odd[int(rng.integers(0, 3))](int(rng.integers(0, d))) for _ in range(int(rng.integers(1, 4)))] for _ in range(int(rng.integers(2, 4)))]
     if len(bl) < 2:
         bl.append([rand_function(rng, d) for _ in range(int(rng.integers(1, 4)))])
+    cls = monitors_transform.data_tensor_class(x, bl)
+    if cls != 'regular':  # zero tensor / no spectral gap: the cross approximation's rank decisions are not determined by the data
+        ctx.skip('hocur_data_tensor_' + cls)
+        return
     rep, mult = int(rng.integers(1, 3)), int(rng.integers(3, 11))
     rk = m + int(rng.integers(0, 3))
     ctx.describe({'op': 'hocur', 'd': d, 'm': m, 'modes': [[type(f).__name__ for f in fl] for fl in bl], 'ranks': rk, 'repeats': rep, 'multiplier': mult})
@@ -104,13 +108,15 @@ def w_hocur(ctx, rng, idx):
         for k in range(p - 1, 0, -1):  # admissible rank vectors only: r_k <= n_k * r_{k+1} (a rank request no TT can have makes the
             rk[k] = min(rk[k], n[k] * min(rk[k + 1], mm))  # random initial column choice index out of range - not asserted)
         ctx.describe({'op': 'hocur', 'd': d, 'm': m, 'modes': [[type(f).__name__ for f in fl] for fl in bl], 'ranks': list(rk), 'repeats': rep, 'multiplier': mult})
-        call('transform.hocur', tr.hocur, x, bl, rk, prop=P, refusals=(np.linalg.LinAlgError,), repeats=rep, multiplier=mult, progress=False)
+        call('transform.hocur', tr.hocur, x, bl, rk, prop=P, refusals=(np.linalg.LinAlgError,), refusal_pred=monitors_transform.hocur_gave_up_on_zero_block, repeats=rep, multiplier=mult, progress=False)
         # the same list object serves a second data set with more snapshots (a caller looping over data sets)
         m2 = m + int(rng.integers(1, 4))
-        x2 = rng.uniform(-1.5, 1.5, size=(d, m2))
-        call('transform.hocur', tr.hocur, x2, bl, rk, prop=P, refusals=(np.linalg.LinAlgError,), repeats=rep, multiplier=mult, progress=False)
+        x2 = gen.data_matrix(rng, (d, m2))
+        if monitors_transform.data_tensor_class(x2, bl) != 'regular':
+            return
+        call('transform.hocur', tr.hocur, x2, bl, rk, prop=P, refusals=(np.linalg.LinAlgError,), refusal_pred=monitors_transform.hocur_gave_up_on_zero_block, repeats=rep, multiplier=mult, progress=False)
         return
-    call('transform.hocur', tr.hocur, x, bl, rk, prop=P, refusals=(np.linalg.LinAlgError,), repeats=rep, multiplier=mult, progress=False)
+    call('transform.hocur', tr.hocur, x, bl, rk, prop=P, refusals=(np.linalg.LinAlgError,), refusal_pred=monitors_transform.hocur_gave_up_on_zero_block, repeats=rep, multiplier=mult, progress=False)
 
 
 WORKLOADS = [
